@@ -12,12 +12,25 @@
 //!     task completed, or `cancel()` was called;
 //!  D. the program terminates once the caller's deadline has passed (cancellation reaches every
 //!     descendant context).
+//!
+//! Half of the programs also contain *blocking* tasks and `run_blocking!` scopes.  Those run on
+//! OS threads which only execute while the gate scheduler has granted them the baton (hook H1),
+//! with preemption points inside `Once::send`, `set_err` and `run_blocking`, so the windows
+//! between "the routine returned", "the error was recorded" and "the guards were released" are
+//! interleaved with other tasks.  For such programs a failure is an interval [routine returned,
+//! task resolved] and rule B becomes:
+//!  B'. the result is the error of a failing task X such that no other failing task was resolved
+//!      before X's routine returned, and
+//!  B''. (causality) an error which only reports that the scope's context was cancelled can be
+//!      the result only if something other than a task failure may have cancelled the context
+//!      before that task ended (an explicit `cancel()`, the last main task completing with
+//!      success, a deadline, cancellation of an enclosing scope).
 use std::{future::Future, pin::Pin, rc::Rc, sync::Arc};
 
 use rand::Rng;
 use rand_chacha::ChaCha8Rng;
 use serde_json::json;
-use zksync_concurrency::{ctx, scope, time, verif::{sched_point, tokio_shim as gtokio}};
+use zksync_concurrency::{ctx, scope, time, verif::{self, sched_point, tokio_shim as gtokio}};
 
 use super::{finish, new_hist, Director, DriveEnd, HistExt, SharedHist};
 use crate::{cli::CaseResult, kit::{self, Sched}};
@@ -31,11 +44,15 @@ pub enum Outcome {
 
 #[derive(Debug, Clone)]
 pub enum Ev {
-    ScopeStart { scope: u32, parent_task: Option<u32> },
+    ScopeStart { scope: u32, parent_task: Option<u32>, timeout: bool },
     /// Logged by the spawner right before the spawn (the task holds its guards from here on).
     TaskSpawn { scope: u32, task: u32, main: bool },
-    TaskStart { scope: u32, task: u32, main: bool },
-    TaskEnd { scope: u32, task: u32, main: bool, outcome: Outcome },
+    /// `entity`: id of the simulated blocking thread for blocking tasks.
+    TaskStart { scope: u32, task: u32, main: bool, entity: Option<u64> },
+    /// The task's routine is about to return `outcome` (`t_ns`: simulated time).
+    TaskEnd { scope: u32, task: u32, main: bool, outcome: Outcome, t_ns: i128 },
+    /// The blocking thread `entity` has completely finished (error recorded, guards released).
+    BlockingDone { entity: u64 },
     Active { scope: u32, task: u32, active: bool },
     CancelCalled { scope: u32, task: u32 },
     ScopeReturn { scope: u32, outcome: Outcome },
@@ -56,6 +73,7 @@ enum Step {
 struct TaskSpec {
     id: u32,
     main: bool,
+    blocking: bool,
     steps: Vec<Step>,
     outcome: Outcome,
 }
@@ -63,6 +81,7 @@ struct TaskSpec {
 #[derive(Debug, Clone)]
 struct ScopeSpec {
     id: u32,
+    blocking: bool,
     root: TaskSpec,
     timeout_ns: Option<i64>,
 }
@@ -72,10 +91,12 @@ struct Gen {
     next_task: u32,
     next_scope: u32,
     budget: i32,
+    /// Percentage of blocking tasks among spawned children (0: purely async program).
+    blocking_pct: u32,
 }
 
 impl Gen {
-    fn task(&mut self, main: bool, depth: u32) -> TaskSpec {
+    fn task(&mut self, main: bool, depth: u32, blocking: bool) -> TaskSpec {
         self.next_task += 1;
         let id = self.next_task;
         self.budget -= 1;
@@ -92,13 +113,15 @@ impl Gen {
                     // Background tasks only spawn background tasks (the API cannot prevent the
                     // opposite, but then "all main tasks completed" is not well defined).
                     let child_main = main && self.rng.gen_range(0..100) < 60;
+                    let child_blocking = self.rng.gen_range(0..100) < self.blocking_pct;
                     Step::Spawn {
-                        child: Box::new(self.task(child_main, depth + 1)),
+                        child: Box::new(self.task(child_main, depth + 1, child_blocking)),
                         join: self.rng.gen_range(0..100) < 30,
                     }
                 }
                 85..=94 if self.budget > 1 && depth < 3 => Step::Nested {
-                    scope: Box::new(self.scope(depth + 1)),
+                    // A blocking task nests blocking scopes, an async task async scopes.
+                    scope: Box::new(self.scope(depth + 1, blocking)),
                     propagate: self.rng.gen_range(0..100) < 60,
                 },
                 _ => Step::Yield,
@@ -113,19 +136,39 @@ impl Gen {
             70..=93 => Outcome::Err(id),
             _ => Outcome::Panic,
         };
-        TaskSpec { id, main, steps, outcome }
+        TaskSpec { id, main, blocking, steps, outcome }
     }
 
-    fn scope(&mut self, depth: u32) -> ScopeSpec {
+    fn scope(&mut self, depth: u32, blocking: bool) -> ScopeSpec {
         self.next_scope += 1;
         let id = self.next_scope;
         let timeout_ns = if self.rng.gen_range(0..100) < 35 { Some(self.rng.gen_range(1..5000)) } else { None };
-        ScopeSpec { id, root: self.task(true, depth), timeout_ns }
+        ScopeSpec { id, blocking, root: self.task(true, depth, blocking), timeout_ns }
     }
 }
 
 type TErr = u32;
 type BoxFut<'a, T> = Pin<Box<dyn 'a + Send + Future<Output = T>>>;
+
+/// What every task of a program shares: the event log and the origin of simulated time.
+#[derive(Clone)]
+struct Cx {
+    hist: SharedHist<Ev>,
+    t0: time::Instant,
+}
+
+impl std::ops::Deref for Cx {
+    type Target = SharedHist<Ev>;
+    fn deref(&self) -> &Self::Target {
+        &self.hist
+    }
+}
+
+impl Cx {
+    fn t_ns(&self, ctx: &ctx::Ctx) -> i128 {
+        (ctx.now() - self.t0).whole_nanoseconds()
+    }
+}
 
 /// Logs `ScopeReturn{Panic}` if the scope's `run!` unwinds through it.
 struct ReturnGuard {
@@ -142,9 +185,43 @@ impl Drop for ReturnGuard {
     }
 }
 
+/// A panic of a nested scope unwinds through the task: that is a panic of the task.
+struct TaskGuard<'a> {
+    sid: u32,
+    id: u32,
+    main: bool,
+    cx: Cx,
+    ctx: &'a ctx::Ctx,
+    ended: std::sync::atomic::AtomicBool,
+}
+
+impl TaskGuard<'_> {
+    fn end(&self, o: Outcome) {
+        self.ended.store(true, std::sync::atomic::Ordering::SeqCst);
+        let t_ns = self.cx.t_ns(self.ctx);
+        self.cx.rec(Ev::TaskEnd { scope: self.sid, task: self.id, main: self.main, outcome: o, t_ns });
+    }
+}
+
+impl Drop for TaskGuard<'_> {
+    fn drop(&mut self) {
+        if !self.ended.load(std::sync::atomic::Ordering::SeqCst) && std::thread::panicking() {
+            let t_ns = self.cx.t_ns(self.ctx);
+            self.cx.rec(Ev::TaskEnd { scope: self.sid, task: self.id, main: self.main, outcome: Outcome::Panic, t_ns });
+        }
+    }
+}
+
 const CANCELED_BASE: u32 = 100_000;
 
-fn run_scope<'a>(parent: &'a ctx::Ctx, spec: ScopeSpec, parent_task: Option<u32>, hist: SharedHist<Ev>) -> BoxFut<'a, Result<u32, TErr>> {
+fn outcome_of(res: &Result<u32, TErr>) -> Outcome {
+    match res {
+        Ok(_) => Outcome::Ok,
+        Err(e) => Outcome::Err(*e),
+    }
+}
+
+fn run_scope<'a>(parent: &'a ctx::Ctx, spec: ScopeSpec, parent_task: Option<u32>, hist: Cx) -> BoxFut<'a, Result<u32, TErr>> {
     Box::pin(async move {
         let cctx;
         let pctx = match spec.timeout_ns {
@@ -155,22 +232,56 @@ fn run_scope<'a>(parent: &'a ctx::Ctx, spec: ScopeSpec, parent_task: Option<u32>
             None => parent,
         };
         let sid = spec.id;
-        hist.rec(Ev::ScopeStart { scope: sid, parent_task });
-        let mut guard = ReturnGuard { scope: sid, hist: hist.clone(), done: false };
+        hist.rec(Ev::ScopeStart { scope: sid, parent_task, timeout: spec.timeout_ns.is_some() });
+        let mut guard = ReturnGuard { scope: sid, hist: hist.hist.clone(), done: false };
         let h2 = hist.clone();
         let root = spec.root;
         hist.rec(Ev::TaskSpawn { scope: sid, task: root.id, main: true });
         let res: Result<u32, TErr> = scope::run!(pctx, |ctx, s| run_task(ctx, s, sid, root, h2)).await;
         guard.done = true;
-        hist.rec(Ev::ScopeReturn {
-            scope: sid,
-            outcome: match res {
-                Ok(_) => Outcome::Ok,
-                Err(e) => Outcome::Err(e),
-            },
-        });
+        hist.rec(Ev::ScopeReturn { scope: sid, outcome: outcome_of(&res) });
         res
     })
+}
+
+/// Same on a (simulated) blocking thread, with `run_blocking!`.
+fn run_scope_blocking(parent: &ctx::Ctx, spec: ScopeSpec, parent_task: Option<u32>, hist: Cx) -> Result<u32, TErr> {
+    let cctx;
+    let pctx = match spec.timeout_ns {
+        Some(d) => {
+            cctx = parent.with_timeout(time::Duration::nanoseconds(d));
+            &cctx
+        }
+        None => parent,
+    };
+    let sid = spec.id;
+    hist.rec(Ev::ScopeStart { scope: sid, parent_task, timeout: spec.timeout_ns.is_some() });
+    let mut guard = ReturnGuard { scope: sid, hist: hist.hist.clone(), done: false };
+    let h2 = hist.clone();
+    let root = spec.root;
+    hist.rec(Ev::TaskSpawn { scope: sid, task: root.id, main: true });
+    let res: Result<u32, TErr> = scope::run_blocking!(pctx, |ctx, s| run_task_blocking(ctx, s, sid, root, h2));
+    guard.done = true;
+    hist.rec(Ev::ScopeReturn { scope: sid, outcome: outcome_of(&res) });
+    res
+}
+
+/// Spawns `child` (async or blocking, main or background) in `s`.
+fn spawn_child<'env>(
+    ctx: &'env ctx::Ctx,
+    s: &'env scope::Scope<'env, TErr>,
+    sid: u32,
+    child: TaskSpec,
+    hist: &Cx,
+) -> scope::JoinHandle<'env, u32> {
+    let h = hist.clone();
+    hist.rec(Ev::TaskSpawn { scope: sid, task: child.id, main: child.main });
+    match (child.blocking, child.main) {
+        (false, true) => s.spawn(run_task(ctx, s, sid, child, h)),
+        (false, false) => s.spawn_bg(run_task(ctx, s, sid, child, h)),
+        (true, true) => s.spawn_blocking(move || run_task_blocking(ctx, s, sid, child, h)),
+        (true, false) => s.spawn_bg_blocking(move || run_task_blocking(ctx, s, sid, child, h)),
+    }
 }
 
 fn run_task<'env>(
@@ -178,38 +289,19 @@ fn run_task<'env>(
     s: &'env scope::Scope<'env, TErr>,
     sid: u32,
     spec: TaskSpec,
-    hist: SharedHist<Ev>,
+    hist: Cx,
 ) -> BoxFut<'env, Result<u32, TErr>> {
     Box::pin(async move {
         let (id, main) = (spec.id, spec.main);
-        hist.rec(Ev::TaskStart { scope: sid, task: id, main });
-        // A panic of a nested scope unwinds through this task: that is a panic of this task.
-        struct TaskGuard {
-            sid: u32,
-            id: u32,
-            main: bool,
-            hist: SharedHist<Ev>,
-            ended: std::sync::atomic::AtomicBool,
-        }
-        impl Drop for TaskGuard {
-            fn drop(&mut self) {
-                if !self.ended.load(std::sync::atomic::Ordering::SeqCst) && std::thread::panicking() {
-                    self.hist.rec(Ev::TaskEnd { scope: self.sid, task: self.id, main: self.main, outcome: Outcome::Panic });
-                }
-            }
-        }
-        let tg = TaskGuard { sid, id, main, hist: hist.clone(), ended: false.into() };
-        let end = |o: Outcome| {
-            tg.ended.store(true, std::sync::atomic::Ordering::SeqCst);
-            hist.rec(Ev::TaskEnd { scope: sid, task: id, main, outcome: o });
-        };
+        hist.rec(Ev::TaskStart { scope: sid, task: id, main, entity: None });
+        let tg = TaskGuard { sid, id, main, cx: hist.clone(), ctx, ended: false.into() };
         let canceled = CANCELED_BASE + id;
         for step in spec.steps {
             match step {
                 Step::Yield => sched_point().await,
                 Step::Sleep(ns) => {
                     if ctx.sleep(time::Duration::nanoseconds(ns)).await.is_err() {
-                        end(Outcome::Err(canceled));
+                        tg.end(Outcome::Err(canceled));
                         return Err(canceled);
                     }
                 }
@@ -226,23 +318,16 @@ fn run_task<'env>(
                     s.cancel();
                 }
                 Step::Spawn { child, join } => {
-                    let h = hist.clone();
-                    let child = *child;
-                    hist.rec(Ev::TaskSpawn { scope: sid, task: child.id, main: child.main });
-                    let handle = if child.main {
-                        s.spawn(run_task(ctx, s, sid, child, h))
-                    } else {
-                        s.spawn_bg(run_task(ctx, s, sid, child, h))
-                    };
+                    let handle = spawn_child(ctx, s, sid, *child, &hist);
                     if join && handle.join(ctx).await.is_err() {
-                        end(Outcome::Err(canceled));
+                        tg.end(Outcome::Err(canceled));
                         return Err(canceled);
                     }
                 }
                 Step::Nested { scope, propagate } => {
                     let r = run_scope(ctx, *scope, Some(id), hist.clone()).await;
                     if r.is_err() && propagate {
-                        end(Outcome::Err(id));
+                        tg.end(Outcome::Err(id));
                         return Err(id);
                     }
                 }
@@ -250,38 +335,121 @@ fn run_task<'env>(
         }
         match spec.outcome {
             Outcome::Ok => {
-                end(Outcome::Ok);
+                tg.end(Outcome::Ok);
                 Ok(id)
             }
             Outcome::Err(e) => {
-                end(Outcome::Err(e));
+                tg.end(Outcome::Err(e));
                 Err(e)
             }
             Outcome::Panic => {
-                end(Outcome::Panic);
+                tg.end(Outcome::Panic);
                 panic!("simulated task panic (task {id})");
             }
         }
     })
 }
 
+/// The same script executed by a blocking task: awaits become `.block()`, yields become
+/// preemption points.
+fn run_task_blocking<'env>(
+    ctx: &'env ctx::Ctx,
+    s: &'env scope::Scope<'env, TErr>,
+    sid: u32,
+    spec: TaskSpec,
+    hist: Cx,
+) -> Result<u32, TErr> {
+    let (id, main) = (spec.id, spec.main);
+    hist.rec(Ev::TaskStart { scope: sid, task: id, main, entity: verif::current_blocking_id() });
+    let tg = TaskGuard { sid, id, main, cx: hist.clone(), ctx, ended: false.into() };
+    let canceled = CANCELED_BASE + id;
+    for step in spec.steps {
+        match step {
+            Step::Yield => verif::preempt(),
+            Step::Sleep(ns) => {
+                if ctx.sleep(time::Duration::nanoseconds(ns)).block().is_err() {
+                    tg.end(Outcome::Err(canceled));
+                    return Err(canceled);
+                }
+            }
+            Step::Check => {
+                hist.rec(Ev::Active { scope: sid, task: id, active: ctx.is_active() });
+                verif::preempt();
+            }
+            Step::WaitCancel => {
+                ctx.canceled().block();
+                hist.rec(Ev::Active { scope: sid, task: id, active: ctx.is_active() });
+            }
+            Step::CancelScope => {
+                hist.rec(Ev::CancelCalled { scope: sid, task: id });
+                s.cancel();
+            }
+            Step::Spawn { child, join } => {
+                let handle = spawn_child(ctx, s, sid, *child, &hist);
+                if join && handle.join(ctx).block().is_err() {
+                    tg.end(Outcome::Err(canceled));
+                    return Err(canceled);
+                }
+            }
+            Step::Nested { scope, propagate } => {
+                let r = run_scope_blocking(ctx, *scope, Some(id), hist.clone());
+                if r.is_err() && propagate {
+                    tg.end(Outcome::Err(id));
+                    return Err(id);
+                }
+            }
+        }
+    }
+    match spec.outcome {
+        Outcome::Ok => {
+            tg.end(Outcome::Ok);
+            Ok(id)
+        }
+        Outcome::Err(e) => {
+            tg.end(Outcome::Err(e));
+            Err(e)
+        }
+        Outcome::Panic => {
+            tg.end(Outcome::Panic);
+            panic!("simulated task panic (task {id})");
+        }
+    }
+}
+
 pub async fn run(seed: u64, sched: Rc<Sched>, keep_log: bool) -> (CaseResult, Vec<String>) {
-    let mut g = Gen { rng: kit::stream(seed, "scopes"), next_task: 0, next_scope: 0, budget: 0 };
+    let mut g = Gen { rng: kit::stream(seed, "scopes"), next_task: 0, next_scope: 0, budget: 0, blocking_pct: 0 };
     g.budget = g.rng.gen_range(2..13);
-    let top = g.scope(0);
+    g.blocking_pct = if g.rng.gen_range(0..100) < 50 { 0 } else { [20, 40, 70][g.rng.gen_range(0..3)] };
+    let top_blocking = g.blocking_pct > 0 && g.rng.gen_range(0..100) < 35;
+    let top = g.scope(0, top_blocking);
     let n_tasks = g.next_task;
     let n_scopes = g.next_scope;
     let clock = ctx::ManualClock::new();
     let root = Arc::new(ctx::test_root(&clock));
     let hist: SharedHist<Ev> = new_hist(keep_log);
     hist.note(format!("program: {top:?}"));
+    let mixed = g.blocking_pct > 0;
+    {
+        let h = hist.clone();
+        sched.on_blocking_done(Arc::new(move |entity| {
+            h.rec(Ev::BlockingDone { entity });
+        }));
+    }
+    let cx = Cx { hist: hist.clone(), t0: clock.now() };
     // Caller-side deadline: sometimes early (cancellation in mid-flight), always finite.
     let deadline_ns: i64 = if g.rng.gen_range(0..100) < 40 { g.rng.gen_range(1..3000) } else { 50_000 };
-    let (h2, root2) = (hist.clone(), root.clone());
-    let handle = gtokio::spawn(async move {
-        let cctx = root2.with_timeout(time::Duration::nanoseconds(deadline_ns));
-        let _ = run_scope(&cctx, top, None, h2).await;
-    });
+    let (h2, root2) = (cx.clone(), root.clone());
+    let handle = if top_blocking {
+        gtokio::task::spawn_blocking(move || {
+            let cctx = root2.with_timeout(time::Duration::nanoseconds(deadline_ns));
+            let _ = run_scope_blocking(&cctx, top, None, h2);
+        })
+    } else {
+        gtokio::spawn(async move {
+            let cctx = root2.with_timeout(time::Duration::nanoseconds(deadline_ns));
+            let _ = run_scope(&cctx, top, None, h2).await;
+        })
+    };
     let mut d = Director::new(seed, sched.clone(), clock.clone());
     d.tick_pct = g.rng.gen_range(2..25);
     d.tick_sizes = vec![1, 50, 700, 3000];
@@ -303,8 +471,8 @@ pub async fn run(seed: u64, sched: Rc<Sched>, keep_log: bool) -> (CaseResult, Ve
     if sched.live() != 0 && hist.lock().unwrap().violations.is_empty() {
         harness_error = Some(format!("{} tasks alive after the program returned", sched.live()));
     }
-    check(&hist);
-    let (states, panics, errs) = {
+    check(&hist, mixed, deadline_ns as i128);
+    let (states, panics, errs, blocking_tasks) = {
         let h = hist.lock().unwrap();
         let mut st = vec![];
         let mut panics = 0;
@@ -312,9 +480,15 @@ pub async fn run(seed: u64, sched: Rc<Sched>, keep_log: bool) -> (CaseResult, Ve
         // Abstract state: (first terminal event kind, tasks alive at that event, scopes).
         let mut alive = 0i64;
         let mut first: Option<u64> = None;
+        let mut blocking_tasks = 0;
         for (_, e) in &h.events {
             match e {
-                Ev::TaskStart { .. } => alive += 1,
+                Ev::TaskStart { entity, .. } => {
+                    alive += 1;
+                    if entity.is_some() {
+                        blocking_tasks += 1;
+                    }
+                }
                 Ev::TaskEnd { outcome, .. } => {
                     alive -= 1;
                     match outcome {
@@ -332,9 +506,15 @@ pub async fn run(seed: u64, sched: Rc<Sched>, keep_log: bool) -> (CaseResult, Ve
                 _ => {}
             }
         }
-        st.push(kit::mix(first.unwrap_or(0), kit::mix(n_tasks as u64, n_scopes as u64)));
-        (st, panics, errs)
+        st.push(kit::mix(first.unwrap_or(0), kit::mix(n_tasks as u64, kit::mix(n_scopes as u64, blocking_tasks))));
+        (st, panics, errs, blocking_tasks)
     };
+    if blocking_tasks > 0 {
+        hist.probe("blocking_task");
+    }
+    if top_blocking {
+        hist.probe("blocking_top_scope");
+    }
     if panics > 0 {
         hist.probe("task_panicked");
     }
@@ -353,51 +533,199 @@ pub async fn run(seed: u64, sched: Rc<Sched>, keep_log: bool) -> (CaseResult, Ve
         d.sim_ns,
         n_tasks >= 2,
         states,
-        json!({"tasks": n_tasks, "scopes": n_scopes, "caller_deadline_ns": deadline_ns, "failed_tasks": errs, "panicked_tasks": panics}),
+        json!({"tasks": n_tasks, "scopes": n_scopes, "blocking_tasks": blocking_tasks, "caller_deadline_ns": deadline_ns, "failed_tasks": errs, "panicked_tasks": panics}),
         he,
     )
 }
 
-fn check(hist: &SharedHist<Ev>) {
+fn check(hist: &SharedHist<Ev>, mixed: bool, caller_deadline_ns: i128) {
+    use std::collections::BTreeMap;
     let events = hist.lock().unwrap().events.clone();
     // Scope tree: scope -> parent task -> scope of that task.
-    let mut scope_parent_task: std::collections::BTreeMap<u32, Option<u32>> = Default::default();
-    let mut task_scope: std::collections::BTreeMap<u32, u32> = Default::default();
+    let mut scope_parent_task: BTreeMap<u32, Option<u32>> = Default::default();
+    let mut task_scope: BTreeMap<u32, u32> = Default::default();
+    let mut scope_timeout: BTreeMap<u32, bool> = Default::default();
+    let mut task_entity: BTreeMap<u32, u64> = Default::default();
+    let mut entity_task: BTreeMap<u64, u32> = Default::default();
     for (_, e) in &events {
         match e {
-            Ev::ScopeStart { scope, parent_task } => {
+            Ev::ScopeStart { scope, parent_task, timeout } => {
                 scope_parent_task.insert(*scope, *parent_task);
+                scope_timeout.insert(*scope, *timeout);
             }
             Ev::TaskSpawn { scope, task, .. } => {
                 task_scope.insert(*task, *scope);
             }
+            Ev::TaskStart { task, entity: Some(en), .. } => {
+                task_entity.insert(*task, *en);
+                entity_task.insert(*en, *task);
+            }
             _ => {}
         }
     }
+    let parent_scope = |s: u32| scope_parent_task.get(&s).copied().flatten().and_then(|t| task_scope.get(&t).copied());
     // Is scope `inner` equal to or nested (transitively) in scope `outer`?
     let within = |mut inner: u32, outer: u32| -> bool {
         loop {
             if inner == outer {
                 return true;
             }
-            match scope_parent_task.get(&inner).copied().flatten().and_then(|t| task_scope.get(&t).copied()) {
+            match parent_scope(inner) {
                 Some(s) => inner = s,
                 None => return false,
             }
         }
     };
     let scopes: Vec<u32> = scope_parent_task.keys().copied().collect();
+
+    // Pass 1, per scope: when was each task's routine over (`TaskEnd`), when was the task
+    // resolved (async: the same event; blocking: `BlockingDone` of its thread), and the earliest
+    // event at which (a) anything at all, (b) something other than a task failure may have
+    // cancelled the scope's own context.
+    #[derive(Default, Clone)]
+    struct Causes {
+        /// Earliest event of any possible cancellation cause inside the scope itself.
+        any: Option<u64>,
+        /// Earliest event of a cause which is not a failure: cancel(), last main ended with Ok.
+        external: Option<u64>,
+    }
+    let min_opt = |a: Option<u64>, b: Option<u64>| match (a, b) {
+        (Some(x), Some(y)) => Some(x.min(y)),
+        (x, None) => x,
+        (None, y) => y,
+    };
+    let mut own: BTreeMap<u32, Causes> = Default::default();
+    let mut ended_at: BTreeMap<u32, (u64, Outcome, i128)> = Default::default();
+    let mut resolved_at: BTreeMap<u32, u64> = Default::default();
+    for (no, e) in &events {
+        match e {
+            Ev::TaskEnd { task, outcome, t_ns, .. } => {
+                ended_at.insert(*task, (*no, *outcome, *t_ns));
+                if !task_entity.contains_key(task) {
+                    resolved_at.insert(*task, *no);
+                }
+            }
+            Ev::BlockingDone { entity } => {
+                if let Some(t) = entity_task.get(entity) {
+                    resolved_at.entry(*t).or_insert(*no);
+                }
+            }
+            // Termination of the scope implies that every task of it has released its guards
+            // (the finishing thread may still be on its way out).
+            Ev::ScopeReturn { scope, .. } => {
+                for (t, _) in task_scope.iter().filter(|(_, s)| *s == scope) {
+                    if ended_at.contains_key(t) {
+                        resolved_at.entry(*t).or_insert(*no);
+                    }
+                }
+            }
+            _ => {}
+        }
+    }
+    let task_main: BTreeMap<u32, bool> = events
+        .iter()
+        .filter_map(|(_, e)| match e {
+            Ev::TaskSpawn { task, main, .. } => Some((*task, *main)),
+            _ => None,
+        })
+        .collect();
+    let mut resolved_by_event: BTreeMap<u64, Vec<u32>> = Default::default();
+    for (t, no) in &resolved_at {
+        resolved_by_event.entry(*no).or_default().push(*t);
+    }
+    for &sid in &scopes {
+        let mut c = Causes::default();
+        let (mut mains_spawned, mut mains_ended) = (0, 0);
+        for (no, e) in &events {
+            match e {
+                Ev::TaskSpawn { scope, main: true, .. } if *scope == sid => mains_spawned += 1,
+                Ev::TaskEnd { scope, main, outcome, .. } if *scope == sid => {
+                    if *outcome != Outcome::Ok {
+                        c.any = min_opt(c.any, Some(*no));
+                    }
+                    if *main {
+                        mains_ended += 1;
+                        if mains_ended == mains_spawned {
+                            c.any = min_opt(c.any, Some(*no));
+                            if *outcome == Outcome::Ok {
+                                c.external = min_opt(c.external, Some(*no));
+                            }
+                        }
+                    }
+                }
+                Ev::CancelCalled { scope, .. } if *scope == sid => {
+                    c.any = min_opt(c.any, Some(*no));
+                    c.external = min_opt(c.external, Some(*no));
+                }
+                _ => {}
+            }
+        }
+        own.insert(sid, c);
+    }
+    // Earliest event from which the context of `sid` may be cancelled for a reason other than a
+    // failure of a task of `sid`: own external causes and anything at all in an enclosing scope.
+    // (Deadlines are handled by simulated time, see below.)
+    let external_from = |sid: u32| -> Option<u64> {
+        let mut r = own[&sid].external;
+        let mut cur = sid;
+        while let Some(p) = parent_scope(cur) {
+            r = min_opt(r, own[&p].any);
+            cur = p;
+        }
+        r
+    };
+    // Scopes with a timeout of their own (or nested in one) can be cancelled by the clock at any
+    // time after their start; the top-level scope by the caller's deadline.
+    let timeout_chain = |sid: u32| -> bool {
+        let mut cur = Some(sid);
+        while let Some(c) = cur {
+            if scope_timeout.get(&c).copied().unwrap_or(false) {
+                return true;
+            }
+            cur = parent_scope(c);
+        }
+        false
+    };
+
     for sid in scopes {
         let mut started: Vec<u32> = vec![];
         let mut ended: Vec<u32> = vec![];
         let mut mains_started = 0;
-        let mut mains_ended = 0;
+        let mut mains_resolved = 0;
+        // By order of resolution.
         let mut first_failure: Option<(u64, Outcome)> = None;
+        let mut failures: Vec<u32> = vec![];
         let mut any_panic = false;
         let mut cancelled_at: Option<(u64, &'static str)> = None;
-        let mut root_task: Option<u32> = None;
         let mut returned: Option<u64> = None;
         for (no, e) in &events {
+            // Tasks resolved at this event (async: at `TaskEnd`; blocking: at `BlockingDone`, at
+            // the latest when their scope returns).
+            for task in resolved_by_event.get(no).cloned().unwrap_or_default() {
+                if task_scope[&task] != sid {
+                    continue;
+                }
+                let (_, outcome, _) = ended_at[&task];
+                if task_main[&task] {
+                    mains_resolved += 1;
+                    if mains_resolved == mains_started && cancelled_at.is_none() {
+                        cancelled_at = Some((*no, "all main tasks completed"));
+                    }
+                }
+                match outcome {
+                    Outcome::Ok => {}
+                    Outcome::Err(_) => {
+                        first_failure.get_or_insert((*no, outcome));
+                        failures.push(task);
+                        cancelled_at.get_or_insert((*no, "a task failed"));
+                    }
+                    Outcome::Panic => {
+                        any_panic = true;
+                        first_failure.get_or_insert((*no, outcome));
+                        cancelled_at.get_or_insert((*no, "a task panicked"));
+                    }
+                }
+            }
             match e {
                 Ev::TaskStart { scope, task, .. } if within(*scope, sid) => {
                     if returned.is_some() {
@@ -406,38 +734,15 @@ fn check(hist: &SharedHist<Ev>) {
                 }
                 Ev::TaskSpawn { scope, task, main } if within(*scope, sid) => {
                     started.push(*task);
-                    if *scope == sid {
-                        root_task.get_or_insert(*task);
-                        if *main {
-                            mains_started += 1;
-                        }
+                    if *scope == sid && *main {
+                        mains_started += 1;
                     }
                 }
-                Ev::TaskEnd { scope, task, main, outcome } if within(*scope, sid) => {
+                Ev::TaskEnd { scope, task, .. } if within(*scope, sid) => {
                     if returned.is_some() {
                         hist.violation("C17", "task_outlives_scope", format!("scope {sid}: task {task} ended at event {no}, after the scope returned at event {}", returned.unwrap()));
                     }
                     ended.push(*task);
-                    if *scope == sid {
-                        if *main {
-                            mains_ended += 1;
-                            if mains_ended == mains_started && cancelled_at.is_none() {
-                                cancelled_at = Some((*no, "all main tasks completed"));
-                            }
-                        }
-                        match outcome {
-                            Outcome::Ok => {}
-                            Outcome::Err(_) => {
-                                first_failure.get_or_insert((*no, *outcome));
-                                cancelled_at.get_or_insert((*no, "a task failed"));
-                            }
-                            Outcome::Panic => {
-                                any_panic = true;
-                                first_failure.get_or_insert((*no, *outcome));
-                                cancelled_at.get_or_insert((*no, "a task panicked"));
-                            }
-                        }
-                    }
                 }
                 Ev::CancelCalled { scope, .. } if *scope == sid => {
                     cancelled_at.get_or_insert((*no, "cancel() was called"));
@@ -457,20 +762,74 @@ fn check(hist: &SharedHist<Ev>) {
                     if !missing.is_empty() {
                         hist.violation("C17", "returned_before_tasks_ended", format!("scope {sid} returned at event {no} while tasks {missing:?} were still running"));
                     }
-                    let want = if any_panic {
-                        Outcome::Panic
-                    } else {
-                        match first_failure {
-                            Some((_, o)) => o,
-                            None => Outcome::Ok,
+                    if !mixed {
+                        // Purely async program: failures are atomic, the first one wins.
+                        let want = if any_panic {
+                            Outcome::Panic
+                        } else {
+                            match first_failure {
+                                Some((_, o)) => o,
+                                None => Outcome::Ok,
+                            }
+                        };
+                        if *outcome != want {
+                            hist.violation(
+                                "C17",
+                                "wrong_scope_result",
+                                format!("scope {sid} returned {outcome:?}, expected {want:?} (first failure: {first_failure:?}, panic: {any_panic})"),
+                            );
                         }
+                        continue;
+                    }
+                    // Program with blocking tasks: rules B' and B''.
+                    if any_panic {
+                        if *outcome != Outcome::Panic {
+                            hist.violation("C17", "wrong_scope_result", format!("scope {sid} returned {outcome:?} although a task panicked"));
+                        }
+                        continue;
+                    }
+                    if failures.is_empty() {
+                        if *outcome != Outcome::Ok {
+                            hist.violation("C17", "wrong_scope_result", format!("scope {sid} returned {outcome:?} although no task of it failed"));
+                        }
+                        continue;
+                    }
+                    let Outcome::Err(code) = *outcome else {
+                        hist.violation("C17", "wrong_scope_result", format!("scope {sid} returned {outcome:?} although tasks {failures:?} failed"));
+                        continue;
                     };
-                    if *outcome != want {
+                    let winner = failures.iter().copied().find(|t| matches!(ended_at.get(t), Some((_, Outcome::Err(c), _)) if *c == code));
+                    let Some(x) = winner else {
+                        hist.violation("C17", "wrong_scope_result", format!("scope {sid} returned error {code}, which is the error of none of its failed tasks {failures:?}"));
+                        continue;
+                    };
+                    let (x_end, _, x_t) = ended_at[&x];
+                    if let Some(y) = failures.iter().copied().find(|y| *y != x && resolved_at.get(y).is_some_and(|r| *r < x_end)) {
                         hist.violation(
                             "C17",
                             "wrong_scope_result",
-                            format!("scope {sid} returned {outcome:?}, expected {want:?} (first failure: {first_failure:?}, panic: {any_panic})"),
+                            format!(
+                                "scope {sid} returned the error of task {x} (routine over at event {x_end}), but task {y} had failed and was completely resolved at event {} before that",
+                                resolved_at[&y]
+                            ),
                         );
+                    }
+                    if code >= CANCELED_BASE {
+                        // X only reported that its context was cancelled.  Who cancelled it?
+                        // A deadline (the caller's, or a timeout of this / an enclosing scope)?
+                        let clock_cause = x_t >= caller_deadline_ns || timeout_chain(sid);
+                        let ext = external_from(sid);
+                        if !clock_cause && !ext.is_some_and(|e| e < x_end) {
+                            hist.violation(
+                                "C17",
+                                "secondary_error_reported",
+                                format!(
+                                    "scope {sid} returned error {code}: task {x} merely observed (by event {x_end}, t={x_t} ns) that the scope's context was cancelled; \
+                                     nothing but the failure of another task can have cancelled it before that (no cancel(), no successful completion of the last main task, \
+                                     no deadline, enclosing scopes untouched), so that task's error is the first one (failed tasks: {failures:?})"
+                                ),
+                            );
+                        }
                     }
                 }
                 _ => {}
